@@ -10,12 +10,22 @@ for pid in sorted(os.listdir(root)):
         if os.path.exists(os.path.join(d, "patch.diff")) and os.path.exists(os.path.join(d, "meta.json")):
             if not sel or ("%s/%s" % (pid, v)) in sel:
                 todo.append((pid, v, d))
+NEIGH = {"C01": ["C06", "C08", "C04"], "C02": ["C05"], "C03": ["C05"], "C04": ["C01", "C16"], "C05": ["C02", "C03", "C10"],
+         "C06": ["C01", "C07", "C15"], "C07": ["C06", "C09", "C15"], "C08": ["C01", "C10"], "C09": ["C08", "C07", "C10", "C18"],
+         "C10": ["C09", "C15"], "C11": [], "C12": ["C15", "C13"], "C13": ["C12", "C15"], "C14": ["C15"], "C15": ["C14", "C01", "C06"],
+         "C16": ["C04", "C17"], "C17": ["C16"], "C18": ["C09", "C10"], "C19": [], "C20": []}
 def run(t):
     pid, v, d = t
     extra = json.load(open(os.path.join(d, "meta.json"))).get("also_checks", [])
     p = subprocess.run(["/verif/tools/seedcheck.sh", d, pid] + extra, capture_output=True, text=True)
     out = p.stdout + p.stderr
+    if "VIOLATION" not in out and NEIGH.get(pid):
+        # the property's own check is quiet: do the checks of neighbouring properties see it?
+        more = [c for c in NEIGH[pid] if c not in extra]
+        p2 = subprocess.run(["/verif/tools/seedcheck.sh", d] + more, capture_output=True, text=True)
+        out += "\n" + "\n".join(l for l in (p2.stdout + p2.stderr).splitlines(True) if True)
     open(os.path.join(d, "seedcheck.log"), "w").write(out)
+    out = out.replace("\n\n", "\n")
     m = re.search(r"demo on clean tree \(must pass\)\nrc=(\d+)", out)
     clean = m.group(1) if m else "?"
     m = re.search(r"demo on patched tree \(must fail\)\nrc=(\d+)", out)
